@@ -123,8 +123,8 @@ def window (args : List String) : String :=
     | some .readUnrotated => "ok" | some .readRotated => "ok" | some .skipped => "lost" | some .crashed => "crash"
     | none => "unfinished"
   match args with
-  | ["ssr"] => showOut (ReadOne.rrun false {} [.read, .rot, .rot, .rot, .rot, .read, .read, .read]).outcome
-  | ["reader"] => showOut (ReadOne.rrun false {} [.read, .read, .read, .rot, .rot, .rot, .rot, .read]).outcome
+  | ["ssr"] => showOut (ReadOne.rrun .real {} [.read, .rot, .rot, .rot, .rot, .read, .read, .read]).outcome
+  | ["reader"] => showOut (ReadOne.rrun .real {} [.read, .read, .read, .rot, .rot, .rot, .rot, .read]).outcome
   | _ => "bad-op"
 
 def handle (cmd : String) (args : List String) : Option String :=
